@@ -41,6 +41,9 @@ def file_case(draw):
     # "records of varying size": now and then one record lists thousands of fits (a whole model grid kept with ('A', 0))
     big = draw(st.sampled_from([0, 0, 0, 0, 0, 0, 0, 4500, 9000])) if nfilt <= 2 else 0
     return {'names': names, 'nfilt': nfilt, 'records': recs, 'big': big, 'big_at': draw(st.integers(0, nrec - 1)),
+            # the writer's objects: fresh per record (as fit() makes them), or ONE Source object given new photometry before
+            # each fit (object interface in a loop)
+            'reuse_source': draw(st.integers(0, 2)) == 0,
             'law': {'wav': [0.1, 0.55, 10.], 'chi': [3., 1., 0.1]}}
 
 
@@ -61,18 +64,28 @@ def run_case(case, ctx):
                                         'av': [0.01 * (i % 97) for i in range(big)], 'sc': [-1. + 0.002 * (i % 500) for i in range(big)],
                                         'fluxes': None if base['fluxes'] is None else [[0.1 * j + 0.001 * i for j in range(nfilt)] for i in range(big)]}
             labels.add('large_record')
-        infos = [fg.build_info(r, names, meta) for r in records]
-        snaps = [fg.snapshot(i) for i in infos]
+        reuse = bool(case.get('reuse_source')) and len(records) >= 2
         full = os.path.join(d, 'full.fitinfo')
-        with must_succeed('writing the fit file'):
-            fg.write_fit_file(full, infos)
+        if reuse:
+            labels.add('one_source_object_reused')
+            infos = records
+            with must_succeed('writing the fit file'):
+                snaps = fg.write_fit_file_reusing(full, records, names, meta)
+        else:
+            infos = [fg.build_info(r, names, meta) for r in records]
+            snaps = [fg.snapshot(i) for i in infos]
+            with must_succeed('writing the fit file'):
+                fg.write_fit_file(full, infos)
         data = open(full, 'rb').read()
         # boundaries: size of the file holding the first k records (k = 0 is impossible to write: nothing is
         # written before the first record, so the header boundary is found from the 1-record file minus the record)
         bounds = []
         for k in range(1, len(infos) + 1):
             p = os.path.join(d, 'prefix%d' % k)
-            fg.write_fit_file(p, infos[:k])
+            if reuse:
+                fg.write_fit_file_reusing(p, records, names, meta, upto=k)
+            else:
+                fg.write_fit_file(p, infos[:k])
             b = open(p, 'rb').read()
             if data[:len(b)] != b:
                 # the writer is not prefix-stable; fall back to a conservative bound (no record is complete before the end)
